@@ -302,6 +302,35 @@ def _trace_part(ck, tier):
                     ev.append({"ev": "GaveUp"})
                 else:
                     raise
+            # limits stay in force across save / load: reload the sampler and keep stepping with overshooting proposals
+            try:
+                import os as _os
+                from harness.core import scratch as _scratch
+                fname = _os.path.join(_scratch("c04sv_"), "s.npz")
+                ch.save(fname)
+                ev.append({"ev": "Init", "sampler": sampler + "_reloaded", "n": n})
+                if sampler == "pca":
+                    ch2 = PcaChain.load(fname, posterior=post)
+                elif sampler in ("hmc", "hmc_fd", "hmc_edge"):
+                    ch2 = HamiltonianChain.load(fname, posterior=post, grad=(post.grad if sampler == "hmc" else None))
+                else:
+                    ch2 = EnsembleSampler.load(fname, posterior=post)
+                ch2.rng = np.random.default_rng(seedv + 5)
+                for p in getattr(ch2, "params", []) or []:
+                    p.rng = np.random.default_rng(seedv + 6)
+                if sampler == "ens":
+                    ch2.advance(3)
+                    for row in ch2.get_sample()[-3 * ch2.n_walkers:]:
+                        ev.append({"ev": "Commit", "ex": [_ulps_excess(v, a, b) for v, a, b in zip(row, lo, hi)]})
+                else:
+                    for _ in range(4):
+                        ch2.take_step()
+                        ev.append({"ev": "Commit", "ex": [_ulps_excess(v, a, b) for v, a, b in zip(ch2.get_last(), lo, hi)]})
+            except ValueError as ex:
+                if "maximum allowed attempts" in str(ex):
+                    ev.append({"ev": "GaveUp"})
+                else:
+                    raise
             runs += 1
             events += ev
             ck.nontrivial.add(("trace", run, sampler))
@@ -342,6 +371,45 @@ def _trace_part(ck, tier):
             raise MachineryError("LimitsTrace rejected the trace but no offending event was found:\n" + r.stdout[-2000:])
 
 
+def _gibbs_reload_part(ck, tier):
+    """boundaries / non-negativity set on Gibbs-type parameters stay in force across save and load"""
+    import os
+    from inference.mcmc.gibbs import GibbsChain, MetropolisChain
+    from harness.core import scratch
+    d = scratch("c04gl_")
+    for cls in (GibbsChain, MetropolisChain):
+        for mode in ("box", "nonneg", "both"):
+            post = FlatLog()
+            chain = cls(posterior=post, start=np.array([1.0, 1.0]), widths=np.array([1.0, 1.0]), display_progress=False)
+            if mode in ("box", "both"):
+                chain.set_boundaries(1, (-2.0, 3.0))
+            if mode in ("nonneg", "both"):
+                chain.set_non_negative(1, True)
+            alo = 0 if mode in ("nonneg", "both") else -2
+            ahi = NOLIM if mode == "nonneg" else 3
+            fname = os.path.join(d, f"{cls.__name__}_{mode}.npz")
+            chain.save(fname)
+            ch2 = cls.load(fname, posterior=post)
+            gens = [WalkGen(), WalkGen()]
+            ch2.rng = WalkGen()
+            for p, g in zip(ch2.params, gens):
+                p.rng = g
+                p.max_tries = p.chk_int = 10 ** 9
+            for t in range(-21, 22):
+                cur = ch2.get_last()
+                gens[1].k = t - cur[1]
+                gens[0].k = 0.0
+                post.evals.clear()
+                ch2.take_step()
+                v = ch2.get_last()[1]
+                ck.case(("reload", cls.__name__, mode, t))
+                if not ((alo == NOLIM or v >= alo) and (ahi == NOLIM or v <= ahi)) or any(
+                        not ((alo == NOLIM or e[1] >= alo) and (ahi == NOLIM or e[1] <= ahi)) for e in post.evals[-1:]):
+                    ck.violation("InForce after save / load (limits set on a parameter stay in force in the reloaded chain)",
+                                 {"cls": cls.__name__, "limits": mode, "allowed": [alo, ahi], "t": t, "got": float(v)}, site=f"{cls.__name__}.limits:reload")
+                    break
+
+
 def run(tier):
     ck = Check("C04", tier)
     ck.rule = ("maps: one case per (box, dyadic scale, offset) with 2R+W+1 points each; state machine: one case per "
@@ -353,4 +421,9 @@ def run(tier):
     _maps_part(ck, tier)
     _sm_part(ck, tier)
     _trace_part(ck, tier)
+    _gibbs_reload_part(ck, tier)
+    # Hamiltonian trajectories: the momentum component is reversed exactly when its coordinate was folded an odd number of times --
+    # the exact bounded orbits of Leapfrog.tla replayed bit-exactly into run_leapfrog (positions AND momenta)
+    from harness import c07
+    c07.orbit_part(ck, tier, only_box=True, reversibility=False)
     return ck.finish()
